@@ -75,7 +75,7 @@ theorem inStep_mem (s : Nat) (rate : Rat) (now : Int) (st : IStats) (p : Rtcp) :
     cases p with
     | nack _ _ => simp only [inSwitch]; split <;> rfl
     | pli _ _ => simp only [inSwitch]; split <;> rfl
-    | fir _ _ _ => simp only [inSwitch]; split <;> rfl
+    | fir _ _ _ => rfl
     | other _ => rfl
     | rr _ rs => exact foldl_frame _ memOf (rrStep_mem s rate now) rs st
     | sr _ _ _ _ rs =>
